@@ -76,6 +76,12 @@ def rand_tracks(rng, skip_checks, allow_huge=True):
     # abstract tracks with astronomically large integer deltas
     huge = None if floats or not allow_huge or rng.random() > 0.15 else rng.choice(((0, 1, 2 ** 27, 200000000, 2 ** 28 - 1),
                                                                  (0, 2 ** 28 - 1, 2 ** 31, 2 ** 32 + 1, 2 ** 40, 10 ** 18)))
+    # exact rational deltas (time may be any real number), and float deltas that differ only far behind the point
+    fracs = None
+    if not floats and not huge and allow_huge and rng.random() < 0.12:
+        from fractions import Fraction
+        fracs = rng.choice(((0, Fraction(1, 3), Fraction(2, 7), Fraction(1, 10 ** 12), 1),
+                            (0, 2.0 ** -40, 2.0 ** -30, 1.0, 2.0 ** -20)))
     tracks = []
     for _ in range(ntr):
         eot = rng.choice(('end', 'absent', 'repeated', 'mid', 'end'))
@@ -86,10 +92,14 @@ def rand_tracks(rng, skip_checks, allow_huge=True):
             d = rng.choice((0, 0, 0, 1, 1, 127, 128, 10 ** 6))
             if floats:
                 d = rng.choice((0, 0.5, 0.25, 1.0, 3.75, 1024.125))
+            if fracs:
+                d = rng.choice(fracs)
             if huge:
                 d = rng.choice(huge)
             if m.type == 'end_of_track':
                 d = rng.choice((0, 0, 5, 1000)) if not floats else rng.choice((0, 0.5, 8.0))
+                if fracs:
+                    d = rng.choice(fracs)
             m.time = d
             msgs.append(m)
         if skip_checks and rng.random() < 0.3 and msgs:
